@@ -179,3 +179,19 @@ def fmt(x):
         return mpmath.nstr(mpf(x), 20)
     except Exception:  # noqa: BLE001
         return repr(x)
+
+
+def qualifiers(a, b=None):
+    """Input-region qualifiers appended to a violation kind, so that a recorded finding
+    can be pinned to the input region in which it occurs (e.g. value@t<0)."""
+    out = []
+    for name, v in (("", a), ("b.", b)):
+        if v is None or len(v) < 4:
+            continue
+        if v[3] < 0:
+            out.append(f"{name}t<0")
+        if v[3] * v[3] < v[2] * v[2]:
+            out.append(f"{name}t2<z2")
+        elif R.tau2(v) < 0:
+            out.append(f"{name}spacelike")
+    return "".join("@" + o for o in out)
